@@ -132,6 +132,9 @@ type internalError struct {
 	streamWrapperPath []defaultImplAction
 	nodePath          NodePath
 	origError         error
+
+	// set on an error item of a node's output stream: the run (its task manager) that gave it its node path
+	streamOrigin any
 }
 
 // Unwrap exposes the wrapped error so that errors.Is / errors.As reach the
